@@ -167,7 +167,7 @@ func c04plan(tier string, seed int64) []run.Job {
 	nr, per := 16, 320
 	maxNodes := 4
 	if tier == "thorough" {
-		nr, per, maxNodes = 64, 400, 6
+		nr, per, maxNodes = 64, 1200, 6
 	}
 	for i := 0; i < nr; i++ {
 		jobs = append(jobs, run.Job{Family: "random", Seed: seed*100000 + int64(i), N: per, P: map[string]int{"strat": 1, "maxlen": 8, "inputs": 6}})
